@@ -126,6 +126,8 @@ def _split_hooks(events):
         if isinstance(base, Seq):
             if isinstance(idx, tuple) and idx and idx[0] == 'slice' and idx[3] is None:
                 lo, hi = idx[1], idx[2]
+                if any(b is not None and not isinstance(b, (P, int)) for b in (lo, hi)):
+                    raise Incomplete('slice bound of an index list is not a term: %s' % norm(e))
                 if lo is not None and hi is None:
                     r = Seq(base, 'from', lo)
                 elif lo is None and hi is not None:
